@@ -21,6 +21,7 @@ A_PRE = 1e-5  # float32 allowance for pre-solver quantities (act, and the h*qvel
 A_ACC = 1e-3  # relative allowance on accelerations (post-solver / M^-1 conditioning), DESIGN section 3
 A_TIME = 2.5e-7  # time: exact for dyadic timesteps, 1 float32 ulp otherwise
 
+MAX_PENETRATION = 0.03  # contacts deeper than this are stiff: MJWarp's tolerance (>=1e-6) vs MuJoCo's 1e-8 dominates
 OVF_ITER = (1 << 9) | (1 << 10)
 OVF_CAP = (1 << 0) | (1 << 1) | (1 << 2) | (1 << 3) | (1 << 4) | (1 << 5) | (1 << 8)
 
@@ -60,6 +61,7 @@ def mj_extract(mjm, mjd):
     "qacc_warmstart": mjd.qacc_warmstart,
     "qacc": mjd.qacc,
     "struct": np.array([mjd.ne, mjd.nf, mjd.nl, mjd.nefc, mjd.ncon], dtype=np.float64),
+    "mindist": np.array([float(mjd.contact.dist.min()) if mjd.ncon else 0.0]),
     "niter": np.array([_niter(mjd)], dtype=np.float64),
     "warn": np.array([sum(int(mjd.warning[i].number) for i in (int(mujoco.mjtWarning.mjWARN_INERTIA), int(mujoco.mjtWarning.mjWARN_BADQPOS), int(mujoco.mjtWarning.mjWARN_BADQVEL), int(mujoco.mjtWarning.mjWARN_BADQACC)))], dtype=np.float64),
   }
@@ -172,6 +174,12 @@ HYPOTHESES = {
     "the actuator force derivative d(gain)/dv*ctrl uses the raw ctrl although the force uses ctrl clamped to ctrlrange "
     "(derivative._qderiv_actuator_passive_vel reads d.ctrl; MuJoCo's mjd_actuator_vel uses the clamped control)",
   ),
+  "muscle_gain_vel": (
+    "implicit:actuator_vel_derivative_muscle_gain_missing",
+    "the velocity derivative of muscle actuator gains (force-velocity curve) is absent "
+    "(derivative._qderiv_actuator_passive_vel handles AFFINE and DCMOTOR gains only; MuJoCo's mjd_actuator_vel includes "
+    "d(muscle gain)/d(velocity) * activation)",
+  ),
 }
 
 
@@ -202,6 +210,7 @@ def implicit_hypothesis(mjm, st, which):
     if mjm.nu == 0 or (mjm.opt.disableflags & (int(mujoco.mjtDisableBit.mjDSBL_CLAMPCTRL) | int(mujoco.mjtDisableBit.mjDSBL_ACTUATION))):
       return None
     mom = _actuator_moment_dense(mjm, d)
+    pattern = _dense_D(mjm, np.ones(mjm.nD))  # qDeriv only has dof-ancestor entries: cross-tree products are dropped
     Dalt = D.copy()
     ctrl = np.asarray(st["ctrl"], dtype=np.float64)
     for i in range(mjm.nu):
@@ -214,7 +223,30 @@ def implicit_hypothesis(mjm, st, which):
         if f <= mjm.actuator_forcerange[i, 0] or f >= mjm.actuator_forcerange[i, 1]:
           continue
       delta = mjm.actuator_gainprm[i, 2] * (ctrl[i] - np.clip(ctrl[i], *mjm.actuator_ctrlrange[i]))
-      Dalt += delta * np.outer(mom[i], mom[i])
+      Dalt += delta * np.outer(mom[i], mom[i]) * pattern
+  elif which == "muscle_gain_vel":
+    if mjm.nu == 0 or (mjm.opt.disableflags & int(mujoco.mjtDisableBit.mjDSBL_ACTUATION)):
+      return None
+    mom = _actuator_moment_dense(mjm, d)
+    pattern = _dense_D(mjm, np.ones(mjm.nD))
+    Dalt = D.copy()
+    for i in range(mjm.nu):
+      if mjm.actuator_gaintype[i] != mujoco.mjtGain.mjGAIN_MUSCLE:
+        continue
+      if mjm.actuator_forcelimited[i]:
+        f = d.actuator_force[i]
+        if f <= mjm.actuator_forcerange[i, 0] or f >= mjm.actuator_forcerange[i, 1]:
+          continue
+      ln, vl = float(d.actuator_length[i]), float(d.actuator_velocity[i])
+      lr, a0, gp, bp = mjm.actuator_lengthrange[i], float(mjm.actuator_acc0[i]), mjm.actuator_gainprm[i, :9], mjm.actuator_biasprm[i, :9]
+      gain = mujoco.mju_muscleGain(ln, vl, lr, a0, gp)
+      if gain == 0:
+        continue
+      bias = mujoco.mju_muscleBias(ln, lr, a0, bp) if mjm.actuator_biastype[i] == mujoco.mjtBias.mjBIAS_MUSCLE else 0.0
+      ctrl_act = (float(d.actuator_force[i]) - bias) / gain
+      eps = 1e-6 * max(1.0, abs(vl))
+      dgain = (mujoco.mju_muscleGain(ln, vl + eps, lr, a0, gp) - mujoco.mju_muscleGain(ln, vl - eps, lr, a0, gp)) / (2 * eps)
+      Dalt -= dgain * ctrl_act * np.outer(mom[i], mom[i]) * pattern  # MJWarp has no muscle term: remove MuJoCo's
   else:
     raise KeyError(which)
   if np.abs(Dalt - D).max(initial=0) <= 1e-12 * max(1.0, np.abs(D).max(initial=0)):
@@ -223,15 +255,18 @@ def implicit_hypothesis(mjm, st, which):
     L = np.tril(Dalt)
     Dalt = L + L.T - np.diag(np.diag(Dalt))
   rhs = d.qfrc_smooth + d.qfrc_constraint
+  A = M - h * Dalt
   try:
-    qacc = np.linalg.solve(M - h * Dalt, rhs)
+    qacc = np.linalg.solve(A, rhs)
   except np.linalg.LinAlgError:
     return None
   qvel = np.asarray(st["qvel"], dtype=np.float64) + h * qacc
   qpos = np.asarray(st["qpos"], dtype=np.float64).copy()
   mujoco.mj_normalizeQuat(mjm, qpos)
   mujoco.mj_integratePos(mjm, qpos, qvel, h)
-  return {"qvel": qvel, "qpos": qpos}
+  # implicitfast factorises with Cholesky: an indefinite alternative matrix predicts NaN output
+  pd = True if not fast else bool(np.linalg.eigvalsh(0.5 * (A + A.T)).min() > 1e-6 * np.abs(A).max())
+  return {"qvel": qvel, "qpos": qpos, "pd": pd}
 
 
 def _judge_post(rec, mjm, got, w, ref, noise, accscale, prefix, ctx, a_acc):
@@ -276,14 +311,14 @@ def judge_world(rec, mjm, got, w, st, ref, noise, prefix="", ctx="", a_acc=A_ACC
     ga = np.asarray(got["act"][w][: mjm.na], dtype=np.float64)
     fe = np.zeros(mjm.na, dtype=bool)
     if int(mjm.opt.integrator) == int(mujoco.mjtIntegrator.mjINT_RK4):
-      # RK4 + FILTEREXACT activations are judged under their own signature (mechanism: intermediate RK stages)
+      # RK4 + exactly-integrated activations (FILTEREXACT, DCMOTOR) are judged under their own signature (intermediate stages)
       for i in range(mjm.nu):
-        if mjm.actuator_dyntype[i] == mujoco.mjtDyn.mjDYN_FILTEREXACT and mjm.actuator_actadr[i] >= 0:
+        if int(mjm.actuator_dyntype[i]) in (int(mujoco.mjtDyn.mjDYN_FILTEREXACT), int(mujoco.mjtDyn.mjDYN_DCMOTOR)) and mjm.actuator_actadr[i] >= 0:
           fe[mjm.actuator_actadr[i] : mjm.actuator_actadr[i] + mjm.actuator_actnum[i]] = True
     if (~fe).any():
       cmp.judge(rec, "act", ga[~fe], ref["act"][~fe], A_PRE, noise["act"], sig_prefix=prefix, ctx=ctx)
     if fe.any():
-      cmp.judge(rec, "act_filterexact", ga[fe], ref["act"][fe], A_PRE, noise["act"], sig_prefix=prefix, ctx=ctx + " (FILTEREXACT activations under RK4: MuJoCo advances activations with plain Euler increments in the intermediate stages)")
+      cmp.judge(rec, "act_exact_integration_in_stages", ga[fe], ref["act"][fe], A_PRE, noise["act"], sig_prefix=prefix, ctx=ctx + " (FILTEREXACT / DCMOTOR activations under RK4: MuJoCo advances activations with plain Euler increments in the intermediate stages, MJWarp applies the exact-integration formula of next_act there too)")
   verdict = "free"
   if constrained or rs[4] > 0 or gs[4] > 0:
     verdict = "gated"
@@ -296,6 +331,8 @@ def judge_world(rec, mjm, got, w, st, ref, noise, prefix="", ctx="", a_acc=A_ACC
       why = f"structure differs (ne,nf,nl,nefc,ncon) mujoco={rs.tolist()} mjwarp={gs.tolist()}"
     elif ovf & OVF_ITER or int(ref["niter"][0]) >= int(mjm.opt.iterations):
       why = "iteration limit reached"
+    elif ref["mindist"][0] < -MAX_PENETRATION:
+      why = "deep penetration (stiff, solver-tolerance dominated)"
     if why is not None:
       rec.count("worlds_ungated")
       rec.count("ungated:" + why.split(" mujoco=")[0])
@@ -320,7 +357,8 @@ def judge_world(rec, mjm, got, w, st, ref, noise, prefix="", ctx="", a_acc=A_ACC
           continue
         tmp2 = core.Rec({})
         _judge_post(tmp2, mjm, got, w, hyp, noise, accscale, prefix, ctx, a_acc)
-        if not tmp2.violations and not tmp2.inconclusive:
+        nan_predicted = (not hyp["pd"]) and not np.all(np.isfinite(got["qvel"][w][:nv]))
+        if nan_predicted or (not tmp2.violations and not tmp2.inconclusive):
           rec.check(tmp.checks)
           rec.count("reproduced:" + which)
           v = tmp.violations[0]
